@@ -58,8 +58,9 @@ pub enum Placement {
     ParentRel,   // ../gen  (cwd is <sb>/w)
     Absolute,    // <sb>/abs/gen
     Nested,      // ./a/b/gen
+    DefaultDir,  // ./src/generated (the built-in default spelled out)
 }
-pub const PLACEMENTS: [Placement; 5] = [Placement::Beside, Placement::Inside, Placement::ParentRel, Placement::Absolute, Placement::Nested];
+pub const PLACEMENTS: [Placement; 6] = [Placement::Beside, Placement::Inside, Placement::ParentRel, Placement::Absolute, Placement::Nested, Placement::DefaultDir];
 
 impl Placement {
     fn output_path(self, sb_root: &Path) -> String {
@@ -69,6 +70,7 @@ impl Placement {
             Placement::ParentRel => "../gen".into(),
             Placement::Absolute => sb_root.join("abs/gen").to_string_lossy().to_string(),
             Placement::Nested => "./a/b/gen".into(),
+            Placement::DefaultDir => "./src/generated".into(),
         }
     }
     fn abs(self, sb_root: &Path) -> PathBuf {
@@ -78,6 +80,7 @@ impl Placement {
             Placement::ParentRel => sb_root.join("gen"),
             Placement::Absolute => sb_root.join("abs/gen"),
             Placement::Nested => sb_root.join("w/a/b/gen"),
+            Placement::DefaultDir => sb_root.join("w/src/generated"),
         }
     }
 }
@@ -93,8 +96,11 @@ pub enum Act {
     /// remove every emit call from the sources, then generate
     NoEventsThenGen,
     NoEventsThenBuild,
+    /// generate with `-p` / `-o` flags while a discovered ./tauri.conf.json names another output
+    /// directory (which holds checked-in files): the flags decide where anything is written
+    GenFlagsOverConf,
 }
-pub const ACTS: [Act; 7] = [Act::Gen, Act::GenForce, Act::Build, Act::Init, Act::EmptyThenGen, Act::NoEventsThenGen, Act::NoEventsThenBuild];
+pub const ACTS: [Act; 8] = [Act::Gen, Act::GenForce, Act::Build, Act::Init, Act::EmptyThenGen, Act::NoEventsThenGen, Act::NoEventsThenBuild, Act::GenFlagsOverConf];
 
 #[derive(Debug, Clone, Serialize, Deserialize)]
 pub struct Case {
@@ -239,6 +245,9 @@ pub fn eval(case: &Case) -> (Vec<Violation>, u64, Vec<String>) {
     std::fs::write(sb.path("outside/types.ts"), "// not yours\n").unwrap();
     std::fs::write(w.join("types.ts"), "// project-root bystander\n").unwrap();
     std::fs::write(w.join(".typecache"), "bystander").unwrap();
+    std::fs::create_dir_all(w.join("conf-out")).unwrap();
+    std::fs::write(w.join("conf-out/index.ts"), "// checked in by hand\n").unwrap();
+    std::fs::write(w.join("conf-out/types.ts"), "// checked in by hand\n").unwrap();
     let od = case.placement.abs(&sb.root);
     if case.preexisting_outdir || !case.foreign.is_empty() {
         std::fs::create_dir_all(&od).unwrap();
@@ -287,6 +296,14 @@ pub fn eval(case: &Case) -> (Vec<Violation>, u64, Vec<String>) {
             Act::Gen | Act::EmptyThenGen | Act::NoEventsThenGen => sbx::run_generate(&w, Seam::Cli, &RunOpts { strace: strace.clone(), ..Default::default() }),
             Act::GenForce => sbx::run_generate(&w, Seam::Cli, &RunOpts { force_flag: true, strace: strace.clone(), ..Default::default() }),
             Act::Build | Act::NoEventsThenBuild => sbx::run_generate(&w, Seam::Build, &RunOpts { strace: strace.clone(), ..Default::default() }),
+            Act::GenFlagsOverConf => {
+                let conf = w.join("tauri.conf.json");
+                std::fs::write(&conf, format!("{{\"productName\":\"demo\",\"plugins\":{{\"typegen\":{{\"projectPath\":\"./src-tauri\",\"outputPath\":\"./conf-out\",\"validationLibrary\":\"{}\"}}}}}}", cfg.mode_name())).unwrap();
+                let args: Vec<String> = vec!["tauri-typegen".into(), "generate".into(), "-p".into(), "./src-tauri".into(), "-o".into(), cfg.output_path.clone()];
+                let r = run::spawn(Spawn { program: run::cli_binary(), args, cwd: &w, schedule_env: None, trace_file: None, strace: strace.clone() });
+                let _ = std::fs::remove_file(&conf);
+                r
+            }
             Act::Init => {
                 let mut args: Vec<String> = vec!["tauri-typegen".into(), "init".into(), "-p".into(), "./src-tauri".into(), "-g".into(), cfg.output_path.clone(), "-v".into(), cfg.mode_name().into()];
                 if case.visualize {
@@ -513,7 +530,7 @@ pub fn run(tier: Tier) -> CheckResult {
         sample_cases = cases.iter().take(2).collect();
     }
     res.coverage.set("samples", json!(sample_cases));
-    res.coverage.set("rule", "state = whole sandbox tree (project, config files, bystanders, output directory pre-populated with a set of foreign entries); transition = one action of {generate, generate --force, build-script run, init, remove all commands + generate, remove all events + generate/build} executed by the real binary / build path; invariant after every transition: every created/modified/deleted path lies directly in the output directory and bears a reserved generated name (or is the output directory / its ancestors being created, or the config file given to init); on a subset of runs a syscall monitor (strace) additionally requires every mutating syscall to address a path inside the output directory; a case is non-trivial when the output directory held at least one foreign entry");
+    res.coverage.set("rule", "state = whole sandbox tree (project, config files, bystanders, output directory pre-populated with a set of foreign entries); transition = one action of {generate, generate --force, build-script run, init, remove all commands + generate, remove all events + generate/build, generate with -p/-o flags against a discovered tauri.conf.json that names another directory} executed by the real binary / build path; invariant after every transition: every created/modified/deleted path lies directly in the output directory and bears a reserved generated name (or is the output directory / its ancestors being created, or the config file given to init); on a subset of runs a syscall monitor (strace) additionally requires every mutating syscall to address a path inside the output directory; a case is non-trivial when the output directory held at least one foreign entry");
     res.assumptions = vec!["reserved names as listed in the property statement".into(), "strace path resolution assumes the tool does not chdir (it does not)".into()];
     res
 }
